@@ -195,9 +195,22 @@ pub struct RoundReport {
     pub finish_order: Vec<usize>,
 }
 
+/// Query the shared root repeatedly (all repetition-aware queries) and count answers that differ
+/// from the sequential fingerprint: the place where a per-state cache published non-atomically shows.
+fn hammer_root(root: &GameState, times: u32, expect: u64, out: &mut Vec<(u64, u64)>) {
+    for k in 0..times {
+        let fp = fingerprint(root, false);
+        if fp != expect {
+            // recorded under a path id that cannot exist in the sequential expansion
+            out.push((u64::MAX - (k as u64 % 4), fp));
+        }
+    }
+}
+
 /// One round: `n` threads expand the same root concurrently (shared via Arc, borrowed, or moved
 /// clones, by `mode`), plus droppers; each thread's sorted result vector must equal `expected`.
-pub fn round(root: &GameState, depth: u32, n: usize, mode: u32, seed: u64, with_delays: bool, expected: &[(u64, u64)]) -> RoundReport {
+pub fn round(root: &GameState, depth: u32, n: usize, mode: u32, seed: u64, with_delays: bool, hammer: u32, expected: &[(u64, u64)]) -> RoundReport {
+    let root_fp = expected.iter().find(|e| e.0 == 1).map_or(0, |e| e.1);
     let before = fingerprint(root, true);
     let mut rep = RoundReport { threads: n, nodes: expected.len(), ..Default::default() };
     let results: Vec<(usize, std::time::Instant, Vec<(u64, u64)>)> = match mode % 3 {
@@ -210,6 +223,7 @@ pub fn round(root: &GameState, depth: u32, n: usize, mode: u32, seed: u64, with_
                     std::thread::spawn(move || {
                         let mut out = vec![];
                         let mut d = if with_delays { Some(Lcg(seed ^ (i as u64) << 20)) } else { None };
+                        hammer_root(&s, hammer, root_fp, &mut out);
                         expand(&s, depth, 1, &mut Lcg(seed.wrapping_add(i as u64 * 7919)), &mut d, &mut out);
                         (i, std::time::Instant::now(), out)
                     })
@@ -236,6 +250,7 @@ pub fn round(root: &GameState, depth: u32, n: usize, mode: u32, seed: u64, with_
                                 return (true, (i, std::time::Instant::now(), out));
                             }
                             let mut d = if with_delays { Some(Lcg(seed ^ (i as u64) << 20)) } else { None };
+                            hammer_root(root, hammer, root_fp, &mut out);
                             expand(root, depth, 1, &mut Lcg(seed.wrapping_add(i as u64 * 104729)), &mut d, &mut out);
                             (false, (i, std::time::Instant::now(), out))
                         })
@@ -252,6 +267,7 @@ pub fn round(root: &GameState, depth: u32, n: usize, mode: u32, seed: u64, with_
                     std::thread::spawn(move || {
                         let mut out = vec![];
                         let mut d = if with_delays { Some(Lcg(seed ^ (i as u64) << 20)) } else { None };
+                        hammer_root(&mine, hammer, root_fp, &mut out);
                         expand(&mine, depth, 1, &mut Lcg(seed.wrapping_add(i as u64 * 31)), &mut d, &mut out);
                         drop(mine);
                         (i, std::time::Instant::now(), out)
@@ -305,4 +321,110 @@ pub fn shared_tail_lists(tail_len: usize, n: usize) -> usize {
         total += h.join().unwrap().0;
     }
     total
+}
+
+
+/// A root at step 3 of a turn in which the pass would be the third occurrence of a position while
+/// the fourth steps lead to new positions: repetition-aware queries on it perform several history
+/// lookups with different answers (built by play only: scripted setup + two shuffling cycles).
+pub fn build_repetition_root(variant: u64) -> GameState {
+    let mut g = GameState::initial();
+    let place = |g: GameState, t: &str| -> GameState {
+        let mut g = g;
+        for ch in t.chars() {
+            let a: Action = ch.to_string().parse().unwrap();
+            g = g.take_action(&a);
+        }
+        g
+    };
+    // gold: majors on rank 2 (mobile), rabbits on rank 1; silver: rabbits on rank 8, majors on rank 7
+    g = place(g, "emhhddccrrrrrrrr");
+    g = place(g, "rrrrrrrremhhddcc");
+    let play = |g: GameState, acts: &[&str]| -> GameState {
+        let mut g = g;
+        for t in acts {
+            let a: Action = t.parse().unwrap();
+            assert!(g.valid_actions().contains(&a), "scripted action {} not offered", t);
+            g = g.take_action(&a);
+        }
+        g
+    };
+    // one cycle = 4 turns returning to the start position; played twice minus the last turn
+    let (gf, sf) = if variant % 2 == 0 { ("a", "a") } else { ("h", "h") };
+    let g_out = format!("{}2n", gf);
+    let g_back = format!("{}3s", gf);
+    let s_out = format!("{}7s", sf);
+    let s_back = format!("{}6n", sf);
+    g = play(g, &[&g_out, "p", &s_out, "p", &g_back, "p", &s_back, "p"]); // start position: 2nd occurrence
+    g = play(g, &[&g_out, "p", &s_out, "p", &g_back, "p"]);
+    // silver, third cycle: detour with the neighbouring piece, then step back: at step 3 the board
+    // equals the start position, whose third occurrence a pass would create
+    let (n_out, n_back) = if variant % 2 == 0 { ("b7s", "b6n") } else { ("g7s", "g6n") };
+    g = play(g, &[n_out, n_back, &s_back]);
+    g
+}
+
+/// Elements that record how deep on the stack they are dropped.
+pub struct Probe(pub u32);
+thread_local! {
+    static SPAN: std::cell::Cell<(usize, usize)> = std::cell::Cell::new((usize::MAX, 0));
+}
+impl Drop for Probe {
+    fn drop(&mut self) {
+        let marker = 0u8;
+        let addr = &marker as *const u8 as usize;
+        SPAN.with(|s| {
+            let (lo, hi) = s.get();
+            s.set((lo.min(addr), hi.max(addr)));
+        });
+    }
+}
+
+/// k threads each own one handle to the same n-node list and drop it at the same instant (spin
+/// barrier). Returns the largest stack span (bytes) observed while the nodes were freed: constant
+/// for an iterative drop, proportional to n if the last decrement falls into recursive drop glue.
+pub fn concurrent_last_owner_drop(n: usize, k: usize, rounds: usize) -> (usize, usize) {
+    use std::sync::atomic::{AtomicUsize, Ordering};
+    let mut worst = 0usize;
+    let mut freed_by_worst = 0usize;
+    for _ in 0..rounds {
+        let mut base: List<Probe> = List::new();
+        for i in 0..n {
+            base = base.append(Probe(i as u32));
+        }
+        let gate = Arc::new(AtomicUsize::new(0));
+        let hs: Vec<_> = (0..k)
+            .map(|_| {
+                let mine = base.clone();
+                let gate = Arc::clone(&gate);
+                std::thread::spawn(move || {
+                    SPAN.with(|s| s.set((usize::MAX, 0)));
+                    gate.fetch_add(1, Ordering::AcqRel);
+                    while gate.load(Ordering::Acquire) < k + 1 {
+                        std::hint::spin_loop();
+                    }
+                    drop(mine);
+                    let (lo, hi) = SPAN.with(|s| s.get());
+                    if hi >= lo {
+                        hi - lo
+                    } else {
+                        0
+                    }
+                })
+            })
+            .collect();
+        while gate.load(Ordering::Acquire) < k {
+            std::hint::spin_loop();
+        }
+        drop(base); // the k threads are now the only owners
+        gate.fetch_add(1, Ordering::AcqRel);
+        for h in hs {
+            let span = h.join().unwrap();
+            if span > worst {
+                worst = span;
+                freed_by_worst = n;
+            }
+        }
+    }
+    (worst, freed_by_worst)
 }
